@@ -17,7 +17,11 @@ CORE_OPTION = 'core::option::Option'
 
 
 def norm_adt(a):
-    return a.replace('core::', 'std::', 1) if a.startswith('core::') else a
+    if a.startswith('core::'):
+        return 'std::' + a[6:]
+    if a.startswith('alloc::'):
+        return 'std::' + a[7:]
+    return a
 
 
 def ok(v):
@@ -1023,6 +1027,12 @@ for _n, _l in (('<std::string::String as std::default::Default>::default', 'Stri
     if _n.startswith('std::'):
         P['core::' + _n[5:]] = _pure(_l)
         P['alloc::' + _n[5:]] = _pure(_l)
+
+
+@prim('<I as std::iter::IntoIterator>::into_iter')
+def into_iter_identity(m, cfg, f, args, t):
+    # blanket impl `impl<I: Iterator> IntoIterator for I`: the identity
+    return args[0]
 
 
 # pattern primitives (consulted when no exact name matches)
